@@ -489,6 +489,17 @@ def coq_build(targets, timeout=1500):
             m = None
             for m in re.finditer(r'File "\./([^"]+)", line (\d+), characters [^\n]*\n(Error:[^\n]*(?:\n[^\n]+){0,6})', out):
                 break
+            # every failing file of this (make -k) build, not only the first one
+            res['failures'] = []
+            for m2 in re.finditer(r'File "\./([^"]+)", line (\d+), characters [^\n]*\n(Error:[^\n]*(?:\n[^\n]+){0,6})', out):
+                if m2.group(1) not in [f['file'] for f in res['failures']]:
+                    res['failures'].append(dict(file=m2.group(1), line=int(m2.group(2)), error=m2.group(3)[:500],
+                                                lemma=enclosing_lemma(os.path.join(COQ, m2.group(1)), int(m2.group(2)))))
+            for m2 in re.finditer(r'make: \*\*\* \[[^\]]*: (theories/\S+)\.vo\] Error (\d+)', out):
+                f = m2.group(1) + '.v'
+                if f not in [x['file'] for x in res['failures']]:
+                    res['failures'].append(dict(file=f, line=0, lemma=None,
+                                                error='coqc ended with status %s (124 = time limit of %d s)' % (m2.group(2), COQC_FILE_TIMEOUT)))
             if m:
                 res['failed_file'] = m.group(1)
                 res['failed_line'] = int(m.group(2))
